@@ -101,7 +101,14 @@ func (c *CaseFile) Count(name string, n int) { c.Dist[name] += n }
 
 // Write emits Cases_<prop>.v (sharded) and meta.json into dir.
 func (c *CaseFile) Write(e *Env) error {
-	const perShard = 400
+	perShard := (len(c.Cases) + 13) / 14
+	if perShard < 10 {
+		perShard = 10
+	}
+
+	if perShard > 400 {
+		perShard = 400
+	}
 
 	shards := 0
 
